@@ -60,7 +60,40 @@ Definition rq_num (bs : rq_pfx) : N := fold_left (fun acc (b : bool) => 2 * acc 
 (* a hop of an AS path as HopPath::iter() yields it: an AS number of an
    AS_SEQUENCE, or a whole other segment (AS_SET, confederation) *)
 Inductive rq_hop := HAsn (a : N) | HSeg.
-Record rq_attrs := MkAttrs { pa_path : list rq_hop; pa_comms : list N (* standard communities, as u32 *) }.
+(* the AS_PATH attribute is a list of segments; to_hop_path() turns every AS number of an
+   AS_SEQUENCE into a hop of its own and any other segment into one hop, so the cut of a
+   sequence into segments is not visible in the hops *)
+Inductive rq_seg := SegSeq (l : list N) | SegOther.
+Definition rq_hops (segs : list rq_seg) : list rq_hop :=
+  flat_map (fun s => match s with SegSeq l => map HAsn l | SegOther => [HSeg] end) segs.
+
+(* The communities of a route live in up to four path attributes: COMMUNITIES (8),
+   EXTENDED COMMUNITIES (16), LARGE_COMMUNITY (32) and the IPv6 address specific
+   extended communities (25). routecore's Community enum keeps the kind next to the
+   octets (Standard [u8;4] / Extended [u8;8] / Large [u8;12] / Ipv6Extended [u8;20],
+   derived equality), so a community is (kind, octets); the octets are written as the
+   number they spell, most significant octet first (the size is fixed by the kind). *)
+Inductive rq_ckind := CStd | CExt | CLarge | CIp6.
+Definition rq_ckind_eqb (a b : rq_ckind) : bool :=
+  match a, b with
+  | CStd, CStd | CExt, CExt | CLarge, CLarge | CIp6, CIp6 => true
+  | _, _ => false
+  end.
+Definition rq_comm := (rq_ckind * N)%type.
+Definition rq_comm_eqb (a b : rq_comm) : bool := rq_ckind_eqb (fst a) (fst b) && (snd a =? snd b).
+(* one community-carrying attribute of a route: its kind and its members, in order *)
+Definition rq_cattr := (rq_ckind * list N)%type.
+
+(* what a filter can see of a route's attribute map (RotondaPaMap = the raw attribute
+   octets of the UPDATE): the AS path, and the community-carrying attributes in the
+   order in which they stand in the map (the order of the UPDATE, which need not be
+   the order of the type codes) *)
+Record rq_attrs := MkAttrs { pa_path : list rq_hop; pa_cattrs : list rq_cattr }.
+
+(* the communities of a route: the members of all its community-carrying attributes,
+   in attribute order (what Serialize for RotondaPaMap collects in its one list) *)
+Definition rq_attr_comms (a : rq_cattr) : list rq_comm := map (pair (fst a)) (snd a).
+Definition rq_route_comms (l : list rq_cattr) : list rq_comm := flat_map rq_attr_comms l.
 
 (* the ingress register seen by the API: id -> registered? -> remote AS? *)
 Definition rq_reg := N -> option (option N).
@@ -70,7 +103,7 @@ Definition rq_tbl := N -> rq_attrs.
 Inductive rq_fkind :=
 | FAsPath (l : list N)
 | FPeerAs (a : N)
-| FCommunity (c : option N).   (* None: a well-formed community that is not a standard one *)
+| FCommunity (c : rq_comm).
 Inductive rq_fop := OpAny | OpAll.
 Record rq_filters := MkFilters { f_op : rq_fop; f_selects : list rq_fkind; f_discards : list rq_fkind }.
 
@@ -81,11 +114,11 @@ Fixpoint rq_match_as_path (actual : list rq_hop) (wanted : list N) : bool :=
   | _, _ => false
   end.
 
-Definition rq_match_community (comms : list N) (c : option N) : bool :=
-  match c with
-  | Some c => existsb (N.eqb c) comms
-  | None => false
-  end.
+(* match_community: item.0.iter().flatten().any(|pa| match pa { <one of the four> (list)
+   => list.communities().iter().any(|c| Community::from(c) == wanted), _ => false }):
+   every attribute is looked at, none ends the walk *)
+Definition rq_match_community (cattrs : list rq_cattr) (c : rq_comm) : bool :=
+  existsb (fun a : rq_cattr => existsb (fun v => rq_comm_eqb c (fst a, v)) (snd a)) cattrs.
 
 Definition rq_match_peer_as (info : option (option N)) (a : N) : bool :=
   match info with
@@ -96,7 +129,7 @@ Definition rq_match_peer_as (info : option (option N)) (a : N) : bool :=
 Definition rq_matches (at_ : rq_attrs) (info : option (option N)) (f : rq_fkind) : bool :=
   match f with
   | FAsPath l => rq_match_as_path (pa_path at_) l
-  | FCommunity c => rq_match_community (pa_comms at_) c
+  | FCommunity c => rq_match_community (pa_cattrs at_) c
   | FPeerAs a => rq_match_peer_as info a
   end.
 
@@ -222,66 +255,89 @@ Definition rq_parse_standard (s : list N) : option N :=
     end
   end.
 
-(* LargeCommunity::from_str: splitn(3, ':') *)
-Definition rq_parse_large (s : list N) : bool :=
+(* LargeCommunity::from_str: splitn(3, ':'); the value is global:local1:local2, 4 octets each *)
+Definition rq_parse_large (s : list N) : option N :=
   match pc_cut rq_colon s with
   | (ga, true, r1) =>
     match pc_cut rq_colon r1 with
     | (l1, true, l2) =>
       match rq_parse_uint rq_u32 (rq_strip_as ga), rq_parse_uint rq_u32 l1, rq_parse_uint rq_u32 l2 with
-      | Some _, Some _, Some _ => true
-      | _, _, _ => false
+      | Some g, Some a, Some b => Some ((g * 4294967296 + a) * 4294967296 + b)
+      | _, _, _ => None
       end
-    | _ => false
+    | _ => None
     end
-  | _ => false
+  | _ => None
   end.
+
+(* the octets of an extended community "transitive two-octet AS specific" (type 0x00) /
+   "transitive four-octet AS specific" (type 0x02) with sub-type [sub] (route target 2,
+   route origin 3): 00 sub as2(2) an(4)  /  02 sub as4(4) an(2) *)
+Definition rq_ext_as2 (sub a an : N) : N := sub * 281474976710656 + a * 4294967296 + an.
+Definition rq_ext_as4 (sub a an : N) : N := 2 * 72057594037927936 + sub * 281474976710656 + a * 65536 + an.
 
 (* ExtendedCommunity::from_str, without the dotted-quad global administrator
    form (not modelled; the generator does not produce it) *)
-Definition rq_parse_extended (s : list N) : bool :=
+Definition rq_parse_extended (s : list N) : option N :=
   match pc_cut rq_colon s with
   | (tag, true, tail) =>
-    if pc_bytes_eqb tag ([114; 116] (* "rt" *)) || pc_bytes_eqb tag ([114; 111] (* "ro" *)) then
+    let sub := if pc_bytes_eqb tag ([114; 116] (* "rt" *)) then Some 2
+               else if pc_bytes_eqb tag ([114; 111] (* "ro" *)) then Some 3 else None in
+    match sub with
+    | Some sub =>
       match pc_cut rq_colon tail with
       | (ga, true, an) =>
         let ga := rq_strip_as ga in
         match rq_parse_uint rq_u16 ga with
-        | Some _ => match rq_parse_uint rq_u32 an with Some _ => true | None => false end
+        | Some a => match rq_parse_uint rq_u32 an with Some n => Some (rq_ext_as2 sub a n) | None => None end
         | None =>
           match rq_parse_uint rq_u32 ga with
-          | Some _ => match rq_parse_uint rq_u16 an with Some _ => true | None => false end
-          | None => false
+          | Some a => match rq_parse_uint rq_u16 an with Some n => Some (rq_ext_as4 sub a n) | None => None end
+          | None => None
           end
         end
-      | _ => false
+      | _ => None
       end
-    else false
+    | None => None
+    end
   | (_, false, _) =>
     match rq_starts_0x s with
-    | Some h => match rq_parse_hex rq_u64 h with Some _ => true | None => false end
-    | None => false
+    | Some h => rq_parse_hex rq_u64 h
+    | None => None
     end
   end.
 
 (* Ipv6ExtendedCommunity::from_str: "0x" and exactly 40 hex digits read as 16 + 16 + 8 *)
-Definition rq_parse_ipv6ext (s : list N) : bool :=
+Definition rq_parse_ipv6ext (s : list N) : option N :=
   match rq_starts_0x s with
   | Some h =>
     if N.of_nat (length h) =? 40 then
       match rq_parse_hex rq_u64 (firstn 16 h), rq_parse_hex rq_u64 (firstn 16 (skipn 16 h)), rq_parse_hex rq_u32 (skipn 32 h) with
-      | Some _, Some _, Some _ => true
-      | _, _, _ => false
+      | Some a, Some b, Some c => Some ((a * 18446744073709551616 + b) * 4294967296 + c)
+      | _, _, _ => None
       end
-    else false
-  | None => false
+    else None
+  | None => None
   end.
 
-(* Community::from_str: None = error; Some None = a community of another kind *)
-Definition rq_parse_community (s : list N) : option (option N) :=
+(* Community::from_str: the first of standard, large, extended, IPv6 extended that
+   accepts the text; None = error *)
+Definition rq_parse_community (s : list N) : option rq_comm :=
   match rq_parse_standard s with
-  | Some c => Some (Some c)
-  | None => if rq_parse_large s || rq_parse_extended s || rq_parse_ipv6ext s then Some None else None
+  | Some c => Some (CStd, c)
+  | None =>
+    match rq_parse_large s with
+    | Some c => Some (CLarge, c)
+    | None =>
+      match rq_parse_extended s with
+      | Some c => Some (CExt, c)
+      | None =>
+        match rq_parse_ipv6ext s with
+        | Some c => Some (CIp6, c)
+        | None => None
+        end
+      end
+    end
   end.
 
 (* ---------------------------------------------------------------- query parameters *)
